@@ -1,20 +1,20 @@
 CONSTANTS
   Fns = {1, 2}
   Hs = {1}
-  NV = 5
-  Size <- MCSize
-  Bytes <- MCBytes
-  Weak <- MCWeak
+  NV = 4
+  Size <- QSize
+  Bytes <- QBytes
+  Weak <- QWeak
   Budget = 300
   MemSize = 16
   Ovrs = {0, 1}
   MKs = {1}
   SepMeta = FALSE
-  MaxVer = 3
-  MaxMid = 4
+  MaxVer = 2
+  MaxMid = 3
   KF_OversizeStale = FALSE
   KF_StaleRef = FALSE
-  KF_MetaByObject = FALSE
+  KF_MetaByObject = TRUE
 INIT Init
 NEXT Next
 VIEW view
@@ -33,3 +33,4 @@ INVARIANT ZeroAfterForgetAll
 PROPERTY ReferencedObjectsImmutable
 PROPERTY ReadOnlyWritesNothing
 CHECK_DEADLOCK FALSE
+CONSTRAINT Depth5
